@@ -245,7 +245,8 @@ Definition lookupN {A} (l : list A) (i : N) : option A := nth_error l (N.to_nat 
 Inductive rerr :=
 | EHistoryUnavailable (t : N) | EMissingPatch (t : N) | EApply (t : N) | EStateRoot (t : N) | ECommitHash (t : N)
 | EPatchDigest (t : N) | ETickOverflow (t : N) | EReceiptTx (t : N) | EReceiptDigest (t : N)
-| ECheckpointRoot (t : N) | EBaseWarp | EBaseBoundary.
+| ECheckpointRoot (t : N) | EBaseWarp | EBaseBoundary
+| EEntryWorldline (t : N) | EEntryTick (t : N) | EParentLink (t : N).
 
 (* HistoryError (append / add_checkpoint) *)
 Inductive herr :=
@@ -375,8 +376,31 @@ Section WithHash.
         | None => inr a
         end.
 
+    (* The coordinate / chain-link check at the head of the loop body of advance_replay_state:
+         entry.worldline_id == worldline_id, entry.worldline_tick == tick, and - when something was replayed before
+         (tick_history.last()) - some parent of the entry is that commit.
+       [lc] switches it on.  lc = true is the code as it is; lc = false is the verifier before the fix
+       "advance_replay_state must check the entry coordinate and the parent link", kept so that the theorem
+       [unlinked_replay_any_tamper_refuted] documents what the check is for. *)
+    Variable lc : bool.
+    Variable wl : N.
+
+    Definition last_commit (w : rstate) : option N :=
+      match rev (rs_hist w) with [] => None | a :: _ => Some (a_commit a) end.
+    Definition coord_link_check (tick : N) (e : entry) (w : rstate) : option rerr :=
+      if negb lc then None
+      else if negb (e_wl e =? wl) then Some (EEntryWorldline tick)
+      else if negb (e_tick e =? tick) then Some (EEntryTick tick)
+      else match last_commit w with
+           | Some c => if existsb (N.eqb c) (parent_ids e) then None else Some (EParentLink tick)
+           | None => None
+           end.
+
     (* body of the loop of advance_replay_state; [tick] is the loop counter, [u0] the worldline's root warp *)
     Definition advance_one (u0 tick : N) (e : entry) (w : rstate) : rerr + rstate :=
+      match coord_link_check tick e w with
+      | Some x => inl x
+      | None =>
       match e_patch e with
       | None => inl (EMissingPatch tick)
       | Some p =>
@@ -393,6 +417,7 @@ Section WithHash.
                     | inr a => inr {| rs_state := s'; rs_hist := rs_hist w ++ [a] |}
                     end
              end
+      end
       end.
 
     Fixpoint run (u0 : N) (es : list entry) (tick : N) (w : rstate) : rerr + rstate :=
